@@ -236,6 +236,7 @@ func judgeOpt(r *core.Run, sc *sims.Scenario, out *sims.Outcome, tableOnly bool)
 	}
 	if out.Panic != nil {
 		r.Count("panicked", 1)
+		r.Violation("panicked-instead-of-a-verdict:"+sc.Entry, "the check panicked: "+out.Panic.Value, sc)
 		return
 	}
 	if out.Err != nil || len(out.Results) != sc.Len {
